@@ -41,6 +41,25 @@ def gen_case(rng):
     return src, fsrc, items
 
 
+def template_case(rng):
+    """with-lists in which transforms read variables they did not assign (so any state carried from one item
+    or one match to the next shows), and captures made inside a stored pattern"""
+    v = rng.choice(["label", "acc", "n"])
+    t1 = "set tagged to transform set %s to %s + '#' return %s + match end" % (v, v, v)
+    t2 = "set plain to transform return %s + match end" % v
+    t3 = "set cnt to transform set k to k + 1 return k end"
+    pat = "set number to pattern (at least 1 digit) = digits"
+    body = rng.choice(["number", "'<' = open number '>'", "letter = l maybe number", "(number) or (letter = l)"])
+    pool = [("transform", "tagged"), ("transform", "plain"), ("transform", "cnt"), ("cap", "digits"), ("cap", "open"), ("cap", "l"),
+            ("str", "|"), ("builtin", "matchNumber"), ("builtin", "value"), ("undef", "nothing")]
+    items = [rng.choice(pool) for _ in range(rng.randint(2, 6))]
+    def show(it):
+        return genprog.q(it[1]) if it[0] == "str" else it[1]
+    src = "\n".join([t1, t2, t3, pat, "replace all %s with %s" % (body, " ".join(show(i) for i in items))])
+    fsrc = "\n".join([t1, t2, t3, pat, "find all %s" % body])
+    return src, fsrc, items
+
+
 def expected_parts(items, m, total):
     """m = parsed match (python list); returns bytes or None if a transform is involved"""
     out = b""
@@ -66,8 +85,12 @@ def run(ctx):
     rng = ctx.rng
     cases, meta = [], []
     for i in range(400 if quick else 8000):
-        src, fsrc, items = gen_case(rng)
-        texts = [genprog.gen_text(rng) for _ in range(5)]
+        if i % 4 == 0:
+            src, fsrc, items = template_case(rng)
+            texts = [rng.choice(["a 12 b 345", "<12> <3>", "x1y22", "7", "ab", "<1>a<22>"]) for _ in range(3)] + [genprog.gen_text(rng, "a1<>", 8)]
+        else:
+            src, fsrc, items = gen_case(rng)
+            texts = [genprog.gen_text(rng) for _ in range(5)]
         cases.append({"src": src, "texts": texts})
         cases.append({"src": fsrc, "texts": texts})
         meta.append(items)
